@@ -1,0 +1,23 @@
+//go:build verif
+
+package gabi
+
+// Verification hooks for property C20 (build tag "verif"); add-only, compiled out without the tag.
+
+import (
+	"crypto/cipher"
+
+	"github.com/privacybydesign/gabi/internal/common"
+)
+
+// VerifC20NewCPRNGWithBlock exposes common.VerifNewCPRNGWithBlock.
+func VerifC20NewCPRNGWithBlock(b cipher.Block) *VerifCPRNG {
+	return &VerifCPRNG{common.VerifNewCPRNGWithBlock(b)}
+}
+
+// VerifCounter returns the block counter of the wrapped generator.
+func (c *VerifCPRNG) VerifCounter() uint64 { return c.c.VerifCounter() }
+
+// VerifC20CacheChan returns the credential's nonrevocation builder cache channel (nil if it
+// has not been created). Only for use while no other goroutine uses the credential.
+func (ic *Credential) VerifC20CacheChan() chan *NonRevocationProofBuilder { return ic.nonrevCache }
